@@ -103,13 +103,22 @@ def output_distribution(u_full, n_real, stats: dict) -> dict:
 
     out: dict = {}
     vac = tuple([0] * n_real)
+    n_tot = u_full.shape[0]
+    allowance = 0.0
     for key, p in stats.items():
         d = {vac: 1.0}
         for g in key:
             d = boson.convolve(d, gdist(g))
+            # the backends drop full output states with conditional probability <= 1e-9 (and, for lossy circuits,
+            # may move that mass to the vacuum): per group at most 1e-9 x (number of full patterns), weighted by p
+            allowance += p * 1e-9 * boson.n_fock(n_tot, sum(g))
         for k, q in d.items():
             out[k] = out.get(k, 0.0) + p * q
+    output_distribution.last_allowance = allowance
     return out
+
+
+output_distribution.last_allowance = 0.0
 
 
 def annotated_to_key(state, n_modes=None):
